@@ -51,6 +51,12 @@ def run_one(sc, prefix=(), seed=0, keep=False):
         late = {}
         while w.now < end:
             w.run_for(STEP)
+            if all(net.is_idle(st) for st in net.stacks) and not w.events:
+                # everything given up and nothing in flight: nothing can open a session any more before the follow-up
+                for st in net.stacks:
+                    gave_up.setdefault(st.name, w.now)
+                w.run(end)
+                break
             for st in net.stacks:
                 idle = net.is_idle(st)
                 if idle:
